@@ -135,3 +135,12 @@ Example ex_hevc_pps_ml_3d :
   (exists p, c16_hparse_pps (fun _ => true) ex_hpps_ml_3d = Ok p /\ pp_ml_flag p = true /\ pp_3d_flag p = true) /\
   c16_hparse_pps (fun _ => true) (removelast ex_hpps_ml_3d) = Err.
 Proof. split; [eexists; split; [vm_compute; reflexivity|split; reflexivity]|vm_compute; reflexivity]. Qed.
+
+(* luma_bit_depth_cm_input_minus8 = 2^32 - 1 and 2^63 - 9 in the same unit: resLsBits = 2^32 + 8 resp. about 2^63, the
+   read of res_coeff_r runs into the end of the data: Err (as in Go), and the model does not iterate over the width *)
+Example ex_hevc_pps_wide_read :
+  c16_hparse_pps (fun _ => true) [68; 1; 192; 113; 128; 21; 128; 64; 159; 192; 64; 0; 0; 3; 0; 8; 0; 0; 3; 0; 7; 13; 128; 32;
+                                  8; 0; 64; 8; 6; 8; 0; 26] = Err /\
+  c16_hparse_pps (fun _ => true) [68; 1; 192; 113; 128; 21; 128; 64; 159; 192; 64; 0; 0; 3; 0; 0; 3; 0; 0; 3; 0; 63; 255; 255;
+                                  255; 255; 255; 255; 252; 112; 216; 2; 0; 128; 4; 0; 128; 96; 128; 1; 160] = Err.
+Proof. vm_compute. split; reflexivity. Qed.
